@@ -186,6 +186,10 @@ def run_case(prop, case, spec, scratch, stats):
             clear_op = {"op": "clear", "default": case["clear_default"], "rules": case["clear_rules"]}
             ds = a.apply(clear_op)
             stats["C11_clears"] += 1
+            if not ds and not case.get("big") and rng.random() < 0.25:
+                ds = a.apply(clear_op)  # clearing twice in a row is clearing once
+                stats["C11_clears"] += 1
+                stats["C11_double_clears"] += 1
             if ds:
                 out.append(D([prop], "clear-failed", first=ds[0]))
                 return out, feats, digest
